@@ -94,6 +94,8 @@ type Engine struct {
 	known     map[string]KnownFinding
 	pathModels []pathSample
 	wantSamples int
+	sampleSeen  int
+	rng2        uint64
 	typeIDs  map[string]int
 	pure     bool
 	concrete []ReplayInput
@@ -106,6 +108,7 @@ type Engine struct {
 }
 
 type pathSample struct {
+	hasModel bool
 	inputs   []inputRec
 	observes []observeRec
 	model    map[string]uint64
@@ -408,6 +411,7 @@ func (e *Engine) deliver(st *State, kind retKind, res Value) {
 	switch kind {
 	case retTop:
 		st.done = true
+		st.completed = true
 	case retToReg:
 		c := st.top()
 		ins := c.block.Instrs[c.pc]
@@ -805,13 +809,35 @@ func (e *Engine) endPath(st *State) {
 	for k := range st.covers {
 		e.stats.Covers[k]++
 	}
-	if e.wantSamples > 0 && len(e.pathModels) < e.wantSamples*4 {
-		var cs []string
-		for k := range st.covers {
-			cs = append(cs, k)
+	if e.wantSamples > 0 && !st.violated && st.completed {
+		// reservoir sample of completed paths (seeded): used for evidence samples and for the
+		// native validation of passing paths
+		e.sampleSeen++
+		slot := -1
+		if len(e.pathModels) < e.wantSamples {
+			e.pathModels = append(e.pathModels, pathSample{})
+			slot = len(e.pathModels) - 1
+		} else {
+			e.rng2 = e.rng2*6364136223846793005 + 1442695040888963407
+			if j := int((e.rng2 >> 33) % uint64(e.sampleSeen)); j < e.wantSamples {
+				slot = j
+			}
 		}
-		sort.Strings(cs)
-		e.pathModels = append(e.pathModels, pathSample{inputs: st.inputs, observes: st.observes, model: st.model, covers: cs})
+		if slot >= 0 {
+			mdl := st.model
+			if mdl == nil && st.pc != nil && e.concrete == nil {
+				e.solver.SyncTo(st.pcList())
+				if r, m2 := e.solver.CheckModel(nil, e.inputVars(st, nil)); r == Sat {
+					mdl = m2
+				}
+			}
+			var cs []string
+			for k := range st.covers {
+				cs = append(cs, k)
+			}
+			sort.Strings(cs)
+			e.pathModels[slot] = pathSample{inputs: st.inputs, observes: st.observes, model: mdl, covers: cs, hasModel: mdl != nil || st.pc == nil}
+		}
 	}
 }
 
